@@ -13,7 +13,9 @@ use serde_json::{json, Value};
 
 fn knobs() -> Knobs {
     Knobs { subs: (1, 3), blocks: (2, 6), w_ext_call: 55, w_int_call: 12, w_branch: 10, w_cbranch: 14, w_return: 8, w_callind: 3,
-            p_no_ret: 12, p_forward: 55, ..Knobs::default() }
+            p_no_ret: 12, p_forward: 55,
+            // listing order of a function's non-entry blocks is independent of the execution order
+            shuffle_blocks: true, ..Knobs::default() }
 }
 
 /// the configuration handed to the real checker for an event configuration
@@ -68,14 +70,25 @@ pub fn gen(out: &mut Out, _sub: &str) {
         let mut r = rng.fork();
         let externs = externs_c17(&mut r);
         let mut k = knobs();
-        let mut weights: &'static [(&'static str, u64)] = &[("access", 14), ("open", 12), ("chroot", 10), ("chdir", 7), ("setuid", 4), ("stat", 4)];
-        match r.below(4) {
+        let mut weights: &'static [(&'static str, u64)] = &[("access", 14), ("open", 12), ("chroot", 10), ("chdir", 7), ("setuid", 7), ("stat", 4)];
+        let mode = r.below(5);
+        match mode {
             0 => {
                 k.subs = (1, 1);
                 k.blocks = (3, 8);
             }
+            3 => {
+                // chroot jails: functions calling chroot, chdir and privilege-dropping functions in every
+                // execution AND listing order
+                weights = &[("chroot", 16), ("chdir", 14), ("setuid", 12), ("setgid", 6), ("access", 3), ("open", 3)];
+                k.subs = (1, 2);
+                k.blocks = (4, 8);
+                k.w_ext_call = 70;
+                k.w_int_call = 6;
+                k.p_no_ret = 6;
+            }
             1 | 2 => {
-                weights = &[("access", 20), ("open", 20), ("chroot", 12), ("chdir", 12), ("setuid", 3)];
+                weights = &[("access", 20), ("open", 20), ("chroot", 12), ("chdir", 12), ("setuid", 8)];
                 // straight-line chains: source call, internal calls (to returning and non-returning
                 // functions), further source calls and the sink call follow each other
                 k.p_chain = 75;
@@ -107,8 +120,8 @@ pub fn gen(out: &mut Out, _sub: &str) {
         let c367 = json!({"symbols": [], "pairs": pairs});
         // CWE243: privilege-dropping functions
         let mut privs: Vec<String> = Vec::new();
-        for name in ["setuid", "setgid", "setresuid", "seteuid"] {
-            if r.chance(1, 2) {
+        for (name, pct) in [("setuid", 75u64), ("setgid", 50), ("setresuid", 50), ("seteuid", 50)] {
+            if r.chance(if mode == 3 && name == "setuid" { 95 } else { pct }, 100) {
                 privs.push(name.to_string());
             }
         }
